@@ -71,3 +71,73 @@ def perturb_flow(rng, G, attr="flow", is_int=True, p=0.4):
             d = rng.choice([-2, -1, 1, 2, 3]) * (1 if is_int else 0.5)
             G.edges[e][attr] = max(0, G.edges[e][attr] + d)
     return G
+
+
+# ---------------------------------------------------------------- cyclic instances (appended for C04 / walk models)
+def rand_flow_cyclic(rng, nmax=5, nwalks=(1, 3), intw=None, maxedges=9, maxlen=10, weights=None, p_cycle=0.8):
+    """Digraph with cycles and a flow = superposition of weighted source-to-sink walks; only edges with
+    positive flow are kept (so every edge lies on a source-to-sink walk).  Returns (G, walks, weights, is_int)."""
+    want_cycle = rng.random() < p_cycle
+    while True:
+        G0 = gen.rand_cyclic(rng, nmax=nmax)
+        k = rng.randint(*nwalks)
+        chosen = []
+        for _ in range(k):
+            w = gen.rand_walk(rng, G0, maxlen=maxlen)
+            if w is not None:
+                chosen.append(w)
+        if not chosen:
+            continue
+        if want_cycle and all(len(set(w)) == len(w) for w in chosen):
+            continue
+        is_int = rng.random() < 0.6 if intw is None else intw
+        scale = F(1) if is_int else rng.choice([F(1, 2), F(1, 4), F(2), F(1), F(5, 4)])
+        ws = [rng.choice(weights or WEIGHTS_INT) * scale for _ in chosen]
+        f = superpose(rng, G0, chosen, ws)
+        es = [e for e in G0.edges() if e in f]
+        if not (1 <= len(es) <= maxedges):
+            continue
+        rng.shuffle(es)
+        G = nx.DiGraph()
+        for (u, v) in es:
+            G.add_edge(u, v, flow=(int(f[(u, v)]) if is_int else float(f[(u, v)])))
+        # the kept edges must still form the chosen walks' graph: sources/sinks unchanged by construction
+        return G, chosen, ws, is_int
+
+
+def rand_subset_constraints(rng, walks, maxn=2):
+    """subsets of edges of actual walks (satisfiable), possibly with repeated edges / duplicates"""
+    cons = []
+    for _ in range(rng.randint(0, maxn)):
+        w = rng.choice(walks)
+        es = list(zip(w, w[1:]))
+        if not es:
+            continue
+        n = rng.randint(1, min(3, len(es)))
+        c = [rng.choice(es) for _ in range(n)]
+        if rng.random() < 0.6:
+            c = list(dict.fromkeys(c))
+        cons.append(c)
+    if cons and rng.random() < 0.15:
+        cons.append(list(cons[0]))
+    return cons
+
+
+WALK_FLAGS = ["optimize_with_safe_sequences", "optimize_with_safe_sequences_allow_geq_constraints",
+              "optimize_with_safe_sequences_fix_via_bounds", "optimize_with_safe_sequences_fix_zero_edges",
+              "optimize_with_safety_as_subset_constraints", "optimize_with_max_safe_antichain_as_subset_constraints"]
+
+
+def rand_walk_opts(rng, n=None):
+    """option vector of the walk models; n (0..63) selects a fixed vector (exhaustive sweeps), else random with
+    a bias towards the defaults"""
+    if n is not None:
+        return {f: bool((n >> j) & 1) for j, f in enumerate(WALK_FLAGS)}
+    r = rng.random()
+    if r < 0.2:
+        return {}
+    o = {}
+    for f, pdef in zip(WALK_FLAGS, [0.75, 0.75, 0.4, 0.75, 0.15, 0.15]):
+        if rng.random() < 0.8:
+            o[f] = rng.random() < pdef
+    return o
